@@ -22,7 +22,11 @@ CAND = [(g, ts) for g in ('a', 'b') for ts in (None, 1, 2, 3, 4)]
 CONDS = [('none', None), ('gt', '>'), ('ge', '>='), ('eq', '='), ('lt', '<'), ('le', '<='), ('between', 'between'), ('gt_latest', '> LATEST'), ('eq_latest', '= LATEST')]
 PARTS = [('none', None), ('eq', "t.g = 'a'"), ('in', "t.g IN ('a', 'b')")]
 REJECTED = [('order_by', ' ORDER BY t.ts'), ('group_by', ' GROUP BY t.g'), ('having', ' GROUP BY t.g HAVING count(*) > 1'), ('offset', ' LIMIT 2 OFFSET 1'),
-            ('other_column', None), ('two_time_filters', None)]
+            ('other_column', None), ('two_time_filters', None),
+            # a filter on another column, hidden in a function call / arithmetic / on the right-hand side / under NOT / in a list
+            ('other_column_func', 'abs(t.v) > 5'), ('other_column_coalesce', 'coalesce(t.v, 0) = 1'), ('other_column_rhs', "t.g = upper(t.h)"),
+            ('other_column_arith', 't.v + 1 > 5'), ('other_column_not', 'NOT t.v = 1'), ('other_column_in', 't.v IN (1, 2)'), ('other_column_between', 't.v BETWEEN 1 AND 2'),
+            ('other_column_isnull', 't.v IS NULL'), ('other_column_const_first', '1 = t.v'), ('other_column_or_time', 't.v = 1 OR t.ts > 2')]
 
 
 def hval(g, ts):
@@ -58,6 +62,8 @@ def build(cl, thr, pl, window, ng, side, lim, rej=None):
         conds.append('t.v = 1')
     elif rej == 'two_time_filters':
         conds.append('t.ts < 9')
+    elif rej and rej.startswith('other_column_'):
+        conds.append(dict(REJECTED)[rej])
     elif rej:
         tail = dict(REJECTED)[rej]
     frm = 'int1.tt AS t JOIN mindsdb.tp' if side == 'right' else 'mindsdb.tp JOIN int1.tt AS t'
